@@ -1,6 +1,8 @@
 /- Kernel obligation: entries 0xc000..0xcfff of the live float16->code table `Gen.encE3M2` pass `encChk`
-   (one sixteenth of the table per file so that lake checks them in parallel; assembled in Proofs/C11_Tables.lean). -/
-import BitstringModel.Model.C11
+   (one sixteenth of the table per file so that lake checks them in parallel; depends only on the specification and on
+   this table; assembled in Proofs/C11_Tables.lean). -/
+import BitstringModel.Model.C11_Spec
+import BitstringModel.Gen.LutEncE3M2
 namespace BM.C11
-theorem encChunk_E3M2_12 : encChunkOk .e3m2 12 = true := by decide +kernel
+theorem encChunk_E3M2_12 : encChunkOkT Gen.encE3M2 Fmt.e3m2 .saturate 12 = true := by decide +kernel
 end BM.C11
